@@ -190,6 +190,7 @@ TraceNext ==
        [] E.ev = "closed.by"  -> TCloseDone
        [] E.ev = "accept"     -> TAccept
        [] E.ev = "crash"      -> Reject("C11-panic", <<E.text>>)
+       [] E.ev = "skipped"    -> l' = E.nb /\ UNCHANGED <<bad, stats, wl, cw, trunk, sent, q, rcvd, wasfull, cfg, phase>>   \* not replayed
        [] OTHER               -> Skip
 
 TraceSpec == TraceInit /\ [][TraceNext]_tvars
